@@ -38,7 +38,7 @@ var Prop = &engine.Prop{
 		"after the first failed read of a program nothing further is compared (the position after a failure is unspecified)",
 		"float64 values pass through registers without NaN quieting (amd64/arm64)",
 	},
-	ShardsQuick: 4, ShardsThorough: 64,
+	ShardsQuick: 4, ShardsThorough: 16,
 	Kinds: []engine.Kind{
 		{Name: "roundtrip", Quick: 6400, Thorough: 768000, Fn: roundtripCase},
 		{Name: "truncate", Quick: 4800, Thorough: 576000, Fn: truncateCase},
